@@ -59,6 +59,8 @@ def aaf_pdu(seq=0, nsamples=1, stream=STREAM, ts=0x11223344):
 
 
 CRF_T0 = 1700000000 * 10**9 + 5 * 125000
+NOW = 1700000000 * 10**9 + 123456789      # the seam's fixed clock
+SEC = [((NOW // 10**9 + 1) * 10**9 + d) % (1 << 32) for d in (-1, 0, 1)] + [((NOW // 10**9 + 3) * 10**9) % (1 << 32), 0, 0xFFFFFFFF, NOW % (1 << 32)]
 
 
 def crf_pdu(seq=0, t0=CRF_T0):
@@ -120,6 +122,8 @@ def cf_templates(udp, acf, fmt, extra_fields, tag=''):
     return out
 
 
+STATELESS = ('acf-can-listener', 'hello-world-listener', 'acf-vss-listener')   # handling of a datagram is a function of that datagram alone
+
 LISTENERS = {
     'acf-can-listener': {'modes': [('udp/classic', '-u -p 17220 --canif vcan0', '-', (1, 0)), ('raw/classic', MAC + ' --canif vcan0', '-', (0, 0)),
                                    ('udp/fd', '-u -p 17220 --canif vcan0', 'fd', (1, 1)), ('raw/fd', MAC + ' --canif vcan0', 'fd', (0, 1))],
@@ -132,12 +136,12 @@ LISTENERS = {
     'cvf-listener': {'modes': [('raw', MAC, '-', 0)],
                      'templates': lambda m: [T('nal%d' % n, cvf_pdu(n), [24, 28, 28 + n],
                                                [('Cvf', 'stream_data_length', 0, lengths(4 + n, 65535) + [1404, 1405]), ('Cvf', 'subtype', 0, [2, 0xFF]), ('Cvf', 'version', 0, [1]), ('Cvf', 'tv', 0, [0]),
-                                                ('Cvf', 'stream_id', 0, [STREAM + 1]), ('Cvf', 'format', 0, [0, 3]), ('Cvf', 'format_subtype', 0, [0, 2]), ('Cvf', 'sequence_num', 0, [7])], 28) for n in (32, 1400)]},
+                                                ('Cvf', 'stream_id', 0, [STREAM + 1]), ('Cvf', 'format', 0, [0, 3]), ('Cvf', 'format_subtype', 0, [0, 2]), ('Cvf', 'sequence_num', 0, [7]), ('Cvf', 'avtp_timestamp', 0, SEC)], 28) for n in (32, 1400)]},
     'aaf-listener': {'modes': [('raw', MAC, '-', 0)],
                      'templates': lambda m: [T('pcm', aaf_pdu(), [24, 28],
                                                [('Pcm', 'stream_data_length', 0, lengths(4, 65535)), ('Pcm', 'subtype', 0, [3, 0xFF]), ('Pcm', 'version', 0, [1]), ('Pcm', 'tv', 0, [0]), ('Pcm', 'sp', 0, [1]),
                                                 ('Pcm', 'stream_id', 0, [STREAM + 1]), ('Pcm', 'format', 0, [2, 0xFF]), ('Pcm', 'nsr', 0, [0, 15]), ('Pcm', 'channels_per_frame', 0, [1, 1023]), ('Pcm', 'bit_depth', 0, [24]),
-                                                ('Pcm', 'sequence_num', 0, [9])], 24)]},
+                                                ('Pcm', 'sequence_num', 0, [9]), ('Pcm', 'avtp_timestamp', 0, SEC)], 24)]},
     'crf-listener': {'modes': [('listener', '-o listener -i eth0 -c aa:bb:cc:dd:ee:01 -a aa:bb:cc:dd:ee:02', '-', 'l'), ('talker', '-o talker -i eth0 -c aa:bb:cc:dd:ee:01 -a aa:bb:cc:dd:ee:02 -m 2', '-', 't')],
                      'templates': lambda m: [T('crf', crf_pdu(), [20, 28, 68],
                                                [('Crf', 'crf_data_length', 0, lengths(48, 65535)), ('Crf', 'subtype', 0, [2, 0xFF, 0x00]), ('Crf', 'version', 0, [1]), ('Crf', 'sv', 0, [0]), ('Crf', 'fs', 0, [1]),
@@ -147,6 +151,21 @@ LISTENERS = {
                                                 [('Pcm', 'stream_data_length', 0, lengths(24, 65535)), ('Pcm', 'subtype', 0, [4, 0xFF]), ('Pcm', 'tv', 0, [0]), ('Pcm', 'avtp_timestamp', 0, [0, 1, (CRF_T0 + 125000) % (1 << 32)]),
                                                  ('Pcm', 'stream_id', 0, [STREAM + 5]), ('Pcm', 'format', 0, [2]), ('Pcm', 'sequence_num', 0, [3])], 24)] if m == 'l' else [])},
 }
+
+
+def primer(t):
+    """a maximal datagram that leaves adversarial bytes in a receive buffer: the template with its last structure
+    repeated up to 1500 bytes and every length-like field of the control header at its maximum"""
+    d = bytearray(t.data)
+    tail = bytes(d[t.bounds[-2] if len(t.bounds) >= 2 else 0:]) or b'\xff'
+    unit = bytes(d[(t.bounds[1] if len(t.bounds) > 1 else 0):]) or tail
+    while len(d) < 1500:
+        d += unit
+    d = d[:1500]
+    for fmt, field, base, vals in t.fields:
+        if 'length' in field and fmt in ('Tscf', 'Ntscf'):
+            setf(d, fmt, field, max(vals), base)
+    return bytes(d)
 
 
 def deviations(t):
@@ -176,16 +195,24 @@ def deviations(t):
 
 
 def effect_tokens(effects):
-    """(log tokens after each RECV, stdout text)"""
+    """(per-datagram token lists: log tokens after each RECV plus that datagram's share of stdout, whole stdout text)"""
     m = re.match(r'^(.*)STDOUT\[(.*)\]$', effects, re.S)
     log, out = (m.group(1), m.group(2)) if m else (effects, '')
-    segs, cur = [], None
+    segs, cur, offs = [], None, []
     for tok in log.split(';'):
         if tok.startswith('RECV'):
             cur = []
             segs.append(cur)
+            mm = re.search(r'@(\d+)', tok)
+            offs.append(int(mm.group(1)) if mm else 0)
         elif cur is not None and tok and not tok.startswith('TIMER'):
             cur.append(tok)
+    for i, seg in enumerate(segs):
+        a = offs[i]
+        b2 = offs[i + 1] if i + 1 < len(offs) else len(out)
+        txt = out[a:b2].strip()
+        if txt:
+            seg.append('STDOUT:' + txt)
     return segs, out
 
 
@@ -203,6 +230,7 @@ def run(prop, tier):
     for name, L in LISTENERS.items():
         exe = e4.build_program(b, name)
         exe_zero = e4.build_program(b, name, init='zero')
+        exe_plain = e4.build_program(b, name, init='none') if name in STATELESS else None
         scripts, meta = [], {}
         for mlabel, args, presets, mparam in L['modes']:
             temps = L['templates'](mparam)
@@ -235,17 +263,27 @@ def run(prop, tier):
                     dn = '+'.join(d[0] for d in combo)
                     dc = '+'.join(sorted({d[1].split(':')[0] + (':' + d[1].split(':')[1].split('.')[1] if ':' in d[1] else '') for d in combo}))
                     bad = 'D' + data.hex()
-                    for seqkind, evs in (('alone', prefix + [bad]), ('then-good', prefix + [bad, good])):
+                    seqs = [('alone', prefix + [bad]), ('then-good', prefix + [bad, good])]
+                    if name in STATELESS and len(combo) == 1:
+                        seqs.append(('primed', ['D' + primer(t).hex(), bad]))
+                        seqs.append(('primedZ', ['D' + ('00' * 1500), bad]))
+                    for seqkind, evs in seqs:
                         sid = '%s|%s|%s|%d|%s' % (name, mlabel, t.label, ci, seqkind)
                         scripts.append((sid, args, presets, evs))
                         meta[sid] = (name, mlabel, t.label, dn, seqkind, dc)
+        primed_scripts = [x for x in scripts if x[0].endswith(('|primed', '|primedZ'))]
+        scripts = [x for x in scripts if not x[0].endswith(('|primed', '|primedZ'))]
         results = e4.run_batch(exe, scripts)
         nseq += len(scripts)
+        if primed_scripts:
+            # locals not auto-initialised: the receive buffer keeps the previous datagram's bytes, as in a normal build
+            results.update(e4.run_batch(exe_plain, primed_scripts))
+            nseq += len(primed_scripts)
         # the same scripts with zero- instead of pattern-initialised locals: any difference in status or
         # effects means the behaviour depends on an uninitialised value
         results_zero = e4.run_batch(exe_zero, scripts)
         nseq += len(scripts)
-        for sid in results:
+        for sid in results_zero:
             a, z = results[sid], results_zero[sid]
             if (a[0], a[1]) != (z[0], z[1]) and not e4.classify(a[0], a[2]) and not e4.classify(z[0], z[2]):
                 n_, mlabel, tl, dn, kind, dc = meta[sid]
@@ -294,6 +332,23 @@ def run(prop, tier):
                 e['modes'].add(mlabel); e['devs'].add(dc)
                 if not e['detail']:
                     e['detail'] = 'first: mode %s, template %s, deviation %s (%s): %s' % (mlabel, tl, dn, kind, rep[:400] or st)
+                continue
+            if kind == 'primedZ':
+                continue
+            if kind == 'primed':
+                other = results.get(sid + 'Z')
+                if other and not e4.classify(other[0], other[2]):
+                    sa, oa = effect_tokens(other[1])
+                    sp, op = effect_tokens(eff)
+                    la = sa[-1] if sa else []
+                    lp = sp[-1] if sp else []
+                    if la != lp:
+                        key = '%s: handling of a datagram depends on bytes left over from an earlier datagram' % name
+                        e = res.viol.setdefault(('C18', key), {'count': 0, 'case': sid, 'detail': '', 'tag': '', 'modes': set(), 'devs': set()})
+                        e['count'] += 1
+                        e['modes'].add(mlabel); e['devs'].add(dc)
+                        if not e['detail']:
+                            e['detail'] = 'first: mode %s, template %s, deviation %s: after a 1500-byte all-zero datagram -> %s, after a 1500-byte primer with plausible content -> %s' % (mlabel, tl, dn, la[:3], lp[:3])
                 continue
             if kind == 'then-good' and name != 'crf-listener':
                 segs, out = effect_tokens(eff)
